@@ -374,6 +374,44 @@ def check_C14(tier):
                                          'every table row carries some probability (the encoder divides by the row sum)', 'Q exceeds e_min+e_max by at least 2e-4 MeV (with exact equality the p.d.f. loader\'s own e1+e2<=Q predicate is decided by rounding)'], min_eval=1000)
 
 
+def _killshim():
+    out = os.path.join(BUILD, 'bin', 'killshim.so')
+    src = os.path.join(ROOT, 'checks/killshim.c')
+    os.makedirs(os.path.dirname(out), exist_ok=True)
+    if not os.path.exists(out) or os.path.getmtime(out) < os.path.getmtime(src):
+        vlib.sh(['gcc', '-O1', '-shared', '-fPIC', src, '-o', out, '-ldl'])
+    return out
+
+
+def check_C13(tier):
+    t0 = time.time()
+    bdir = vlib.build_variant('fast')
+    api = compile_bin('api_ref', ['checks/api_ref.cc'], 'fast')
+    shim = _killshim()
+    out = os.path.join(BUILD, 'run', 'c13-report.json')
+    if os.path.exists(out):
+        os.remove(out)
+    sdir = vlib.build_variant('san')
+    env = dict(run_env(), VERIF_RUN_SAN=os.path.join(sdir, 'bxdecay0-run'))
+    r = subprocess.run(['python3-vt', os.path.join(ROOT, 'py/c13.py'), os.path.join(bdir, 'bxdecay0-run'), api, shim, tier, out], stdout=subprocess.PIPE, stderr=subprocess.STDOUT, text=True, env=env)
+    agg = Agg('C13')
+    if not os.path.exists(out):
+        agg.broken.append('c13.py produced no report: ' + r.stdout[-1500:])
+    else:
+        rep = json.load(open(out))
+        rep['rc'] = 0
+        agg.add([rep])
+    rule = ('Hypothesis (seeded by VERIF_SEED) generates command lines over category (valid/invalid/missing), nuclide (published, unpublished, prefix-extended, cross-category, missing), level, mode 0..26, '
+            'window (none/valid/inverted/one-sided/beyond e0; on capable and non-capable modes), seed, count, activity (none/positive/0/negative), MDL options (valid and invalid), basename as flag / '
+            'positional / missing, unknown option, option with missing value, stray parameter; accepted lines: exactly N records with ids 0..N-1, each textually identical to api_ref (README-style API '
+            'program on std::default_random_engine(seed)), second run byte-identical, companion file reports effective settings and @status=0; refused lines: no record, no @status=0; for a sample of '
+            'accepted lines an LD_PRELOAD shim kills the process before EVERY write of the run: @status=0 present => event file complete; '
+            'non-trivial & distinct = distinct normalised command lines x verdict, plus each (line, kill point)')
+    return verdict(agg, tier, t0, rule, ['expected verdict = line is well-formed AND the library API (api_ref) accepts the same settings AND the nuclide is in the resource list of its category',
+                                         'kill points are write-syscall granular; the exit status of refused lines is not asserted',
+                                         'with --activity the API reference draws the event time from the same engine after each shot'], min_eval=100)
+
+
 def check_C08(tier):
     """sanitizer builds (ASan+UBSan+_GLIBCXX_ASSERTIONS) of the generation drivers + structure-aware libFuzzer target"""
     t0 = time.time()
@@ -426,6 +464,10 @@ def replay(prop, path):
     if prop == 'C14':
         b = compile_bin('gacheck', ['checks/gacheck.cc'], 'san')
         return subprocess.run(['python3-vt', os.path.join(ROOT, 'py/c14.py'), b, 'quick', os.path.join(BUILD, 'run', 'c14-replay.json'), '--replay', path], env=run_env()).returncode
+    if prop == 'C13':
+        bdir = vlib.build_variant('fast')
+        api = compile_bin('api_ref', ['checks/api_ref.cc'], 'fast')
+        return subprocess.run(['python3-vt', os.path.join(ROOT, 'py/c13.py'), os.path.join(bdir, 'bxdecay0-run'), api, _killshim(), 'quick', os.path.join(BUILD, 'run', 'c13-replay.json'), '--replay', path], env=run_env()).returncode
     if prop == 'C10':
         b = compile_bin('mdlcheck', ['checks/mdlcheck.cc'], 'fast')
         return subprocess.run([b, '--replay', path], env=run_env()).returncode
